@@ -141,8 +141,19 @@ def body(ctx: H.BaseCtx):
             g, r = opt["sort_graded"], opt["sort_reverse"]
             leads = [model_lead(e, names, g, r) for e in items]
             keys = [order_key(m, names, g, r) for m, _ in leads]
-            for name, sign in (("argmax", 1), ("argmin", -1), ("amax", 1), ("amin", -1)):
-                res = getattr(numpoly, name)(p)
+            for name, sign in (("argmax", 1), ("argmin", -1), ("amax", 1), ("amin", -1), ("amax(out=)", 1), ("amin(out=)", -1)):
+                if name.endswith("(out=)"):
+                    # an output buffer with a field for every term of the input -- over other indeterminates: whatever the call does
+                    # with it, what it returns is an element of the input
+                    try:
+                        buf = numpoly.ndpoly(exponents=p.exponents, shape=(), names=tuple("q%d" % (7 + i) for i in range(len(p.names))), dtype=p.dtype)
+                        for k_ in buf.keys:
+                            buf.values[str(k_)] = 0
+                        res = getattr(numpoly, name[:4])(p, out=buf)
+                    except Exception:
+                        continue  # refusing is allowed
+                else:
+                    res = getattr(numpoly, name)(p)
                 if name.startswith("arg"):
                     idx = int(res)
                     if not 0 <= idx < len(items):
